@@ -102,9 +102,16 @@ def main() -> int:
         print(f"{flag} {r['name']:<44} expect={r['expect']:<6} exit={r['exit']} {r['wall_s']:>6}s {r['signature']}")
         if not r["ok"]:
             print("     " + r["stderr_tail"].replace("\n", "\n     "))
-    if not a.only and not a.prop:
-        with open(a.out, "w", encoding="utf-8") as f:
-            json.dump({"results": [{k: v for k, v in r.items() if k != "stderr_tail"} for r in results]}, f, indent=1)
+    # the report always describes the whole current catalogue: partial runs replace their entries, stale names are dropped
+    merged = {}
+    if os.path.exists(a.out):
+        with open(a.out, encoding="utf-8") as f:
+            merged = {r["name"]: r for r in json.load(f).get("results", [])}
+    for r in results:
+        merged[r["name"]] = {k: v for k, v in r.items() if k != "stderr_tail"}
+    with open(a.out, "w", encoding="utf-8") as f:
+        json.dump({"results": [merged[n] for n in sorted(merged) if n in MUTANTS],
+                   "not_yet_run": sorted(n for n in MUTANTS if n not in merged)}, f, indent=1)
     print(f"{len(results) - len(bad)}/{len(results)} as expected")
     return 0 if not bad else 1
 
